@@ -82,6 +82,24 @@ class FuncRef(namedtuple("FuncRef", "name")):
     __slots__ = ()
 
 
+class LambdaV(namedtuple("LambdaV", "node closure")):
+    """A lambda expression as a value: its node plus the values its free variables had where it was created."""
+
+    __slots__ = ()
+
+    def __hash__(self):
+        return hash(("LambdaV", id(self.node), self.closure))
+
+    def __eq__(self, other):
+        return isinstance(other, LambdaV) and other.node is self.node and other.closure == self.closure
+
+    def __ne__(self, other):
+        return not self.__eq__(other)
+
+    def __repr__(self):
+        return "lambda@%d" % getattr(self.node, "lineno", 0)
+
+
 class ClassRef(namedtuple("ClassRef", "name")):
     """A reference to an exception class (of the package or a builtin), usable as a value: stored in tables, bound
     to variables, raised through a variable, tested with isinstance."""
@@ -466,7 +484,7 @@ class Domain:
         return TOP
 
     def never_none(self, v):
-        return isinstance(v, (TupleV, Opaque, ClassRef, ExcVal, FuncRef)) or (isinstance(v, Const) and v.v is not None) or (isinstance(v, Neq) and v.v is None)
+        return isinstance(v, (TupleV, Opaque, ClassRef, ExcVal, FuncRef, LambdaV)) or (isinstance(v, Const) and v.v is not None) or (isinstance(v, Neq) and v.v is None)
 
     def truth(self, v, state=None):
         if isinstance(v, Const):
@@ -476,7 +494,7 @@ class Domain:
                 return None
         if isinstance(v, TupleV):
             return len(v.items) > 0
-        if isinstance(v, (Opaque, ClassRef, ExcVal)):
+        if isinstance(v, (Opaque, ClassRef, ExcVal, LambdaV, FuncRef)):
             return True
         return None
 
@@ -549,6 +567,23 @@ class Domain:
     def make_set(self, items, node, state):
         return TOP
 
+    # state-changing variants (a domain with a heap allocates here); the defaults wrap the pure hooks
+    def make_list_s(self, items, node, state):
+        return self.make_list(items, node, state), state
+
+    def make_dict_s(self, keys, values, node, state):
+        return self.make_dict(keys, values, node, state), state
+
+    def comprehension_s(self, node, elem_values, state):
+        return self.comprehension(node, elem_values, state), state
+
+    def subscript_load_s(self, objval, idxval, node, state):
+        v, may = self.subscript_load(objval, idxval, node, state)
+        return v, may, state
+
+    def binop_s(self, node, l, r, state):
+        return self.binop(node, l, r, state), state
+
     def fstring(self, node, parts, state):
         return TOP
 
@@ -556,7 +591,51 @@ class Domain:
         return TOP
 
     def lambda_(self, node, state):
-        return Opaque("lambda@%d" % node.lineno)
+        a = node.args
+        params = {x.arg for x in a.posonlyargs + a.args + a.kwonlyargs} | ({a.vararg.arg} if a.vararg else set()) | ({a.kwarg.arg} if a.kwarg else set())
+        free = sorted({n.id for n in ast.walk(node.body) if isinstance(n, ast.Name) and isinstance(n.ctx, ast.Load)} - params)
+        closure = tuple((nm, state.get(nm)) for nm in free if isinstance(state, Env) and state.has(nm) and _hashable(state.get(nm)))
+        return LambdaV(node, closure)
+
+    def apply_lambda(self, node, lam, args, kwargs, state):
+        """Call of a lambda value: its body is evaluated with the parameters bound on top of the *current* state (a
+        closure over the defining frame's variables is read from the calling frame when the names coincide, which is
+        exact for a lambda defined and called in the same frame and for one that closes over nothing but parameters of
+        its own).  -> list of ('ok', value, state) / ('exc', Exc, state), or None if the depth bound is reached."""
+        if self._depth >= self.max_inline_depth + 1:
+            return None
+        a = lam.node.args
+        names = [x.arg for x in a.posonlyargs + a.args]
+        if a.vararg or a.kwarg or a.kwonlyargs or len(args) > len(names):
+            return None
+        bound = dict(lam.closure)
+        bound.update(zip(names, args))
+        for k, v in kwargs.items():
+            if k in names:
+                bound[k] = v
+        defaults = a.defaults
+        for nm, d in zip(names[len(names) - len(defaults):], defaults):
+            if nm not in bound:
+                bound[nm] = Const(d.value) if isinstance(d, ast.Constant) else TOP
+        if any(nm not in bound for nm in names):
+            return None
+        saved = {nm: (state.get(nm) if state.has(nm) else None, state.has(nm)) for nm in bound}
+        st = state
+        for nm, v in bound.items():
+            st = st.set(nm, v)
+        self._depth += 1
+        try:
+            interp = Interp(self, lam.node, self.prog)
+            oks, excs = interp.ev(lam.node.body, st, Ctx(lam.node))
+        finally:
+            self._depth -= 1
+
+        def restore(s):
+            for nm, (old, had) in saved.items():
+                s = s.set(nm, old) if had else s.drop(nm)
+            return s
+
+        return [("ok", v if _hashable(v) else TOP, restore(s)) for v, s in oks] + [("exc", e, restore(s)) for e, s in excs]
 
     def on_catch(self, handler, exc, state):
         return state
@@ -1148,9 +1227,9 @@ class Interp:
         oks, excs = self.ev_seq([e.value, e.slice], state, ctx)
         out = []
         for (ov, iv), s in oks:
-            v, may = self.dom.subscript_load(ov, iv, e, s)
+            v, may, s2 = self.dom.subscript_load_s(ov, iv, e, s)
             if v is not NOVALUE:
-                out.append((v, s))
+                out.append((v, s2))
             if may:
                 # may = True: a lookup that can fail; may = "KeyError"/"IndexError" with NOVALUE: one that surely fails
                 excs.append((Exc(ORD, may if isinstance(may, str) else "LookupError", e.lineno), s))
@@ -1167,7 +1246,7 @@ class Interp:
 
     def e_List(self, e, state, ctx):
         oks, excs = self.ev_seq(e.elts, state, ctx)
-        return [(self.dom.make_list(vals, e, s), s) for vals, s in oks], excs
+        return [self.dom.make_list_s(vals, e, s) for vals, s in oks], excs
 
     def e_Set(self, e, state, ctx):
         oks, excs = self.ev_seq(e.elts, state, ctx)
@@ -1178,7 +1257,7 @@ class Interp:
         oks, excs = self.ev_seq(ks + list(e.values), state, ctx)
         out = []
         for vals, s in oks:
-            out.append((self.dom.make_dict(vals[: len(ks)], vals[len(ks):], e, s), s))
+            out.append(self.dom.make_dict_s(vals[: len(ks)], vals[len(ks):], e, s))
         return out, excs
 
     def e_JoinedStr(self, e, state, ctx):
@@ -1196,7 +1275,7 @@ class Interp:
         oks, excs = self.ev_seq([e.left, e.right], state, ctx)
         out = []
         for (l, r), s in oks:
-            out.append((self.dom.binop(e, l, r, s), s))
+            out.append(self.dom.binop_s(e, l, r, s))
             if self.dom.binop_may_raise and not (isinstance(l, Const) and isinstance(r, Const)):
                 excs.append((Exc(ORD, "TypeError", e.lineno), s))
         return out, excs
@@ -1303,7 +1382,12 @@ class Interp:
                 if verdict is not None:
                     out.append((Const(verdict), s))
                     continue
-            for r in self.dom.call(e, fval, args, kwargs, s):
+            res = None
+            if isinstance(fval, LambdaV) and not any(isinstance(a, ast.Starred) for a in e.args):
+                res = self.dom.apply_lambda(e, fval, args, kwargs, s)
+            if res is None:
+                res = self.dom.call(e, fval, args, kwargs, s)
+            for r in res:
                 if r[0] == "ok":
                     out.append((r[1], r[2]))
                 else:
@@ -1368,7 +1452,7 @@ class Interp:
             st_out = {clean(s): [] for s in dropped} or {state: []}
         self.dom.comp_exact = len(st_out) == 1
         for s_clean, vs in st_out.items():
-            out.append((self.dom.comprehension(e, vs, s_clean), s_clean))
+            out.append(self.dom.comprehension_s(e, vs, s_clean))
         return out, excs
 
     def e_ListComp(self, e, state, ctx):
